@@ -960,18 +960,44 @@ func callBuiltin(caller *frame, callpos token.Pos, fn *ssa.Builtin, args []value
 			return args[0]
 		}
 		if ss, ok := args[1].(symString); ok {
-			return append(args[0].([]value), ss...)
+			a0 := args[0].([]value)
+			r := append(a0, ss...)
+			if cap(r) != cap(a0) {
+				spare := r[len(r):cap(r)]
+				for k := range spare {
+					spare[k] = uint8(0)
+				}
+			}
+			return r
 		}
 		if s, ok := args[1].(string); ok {
 			// append([]byte, ...string) []byte
 			arg0 := args[0].([]value)
+			c0 := cap(arg0)
 			for i := 0; i < len(s); i++ {
 				arg0 = append(arg0, s[i])
+			}
+			if cap(arg0) != c0 {
+				spare := arg0[len(arg0):cap(arg0)]
+				for k := range spare {
+					spare[k] = uint8(0)
+				}
 			}
 			return arg0
 		}
 		// append([]T, ...[]T) []T
-		return append(args[0].([]value), args[1].([]value)...)
+		a0 := args[0].([]value)
+		r := append(a0, args[1].([]value)...)
+		if cap(r) != cap(a0) && cap(r) > len(r) {
+			// a fresh backing array: Go zeroes the spare capacity (code may reslice into it)
+			if st, ok := fn.Type().(*types.Signature).Params().At(0).Type().Underlying().(*types.Slice); ok {
+				spare := r[len(r):cap(r)]
+				for k := range spare {
+					spare[k] = zero(st.Elem())
+				}
+			}
+		}
+		return r
 
 	case "copy": // copy([]T, []T) int or copy([]byte, string) int
 		src := args[1]
